@@ -238,6 +238,7 @@ class Tr:
         for coq, cpp, kind in self.sc["fields"]:
             self.kind_field.setdefault(kind, coq)
         self.n = 0
+        self.inlining = []
         self.sigs = {}      # method -> (param kinds, ret kind)
         self.calls = {}
 
@@ -500,7 +501,8 @@ class Tr:
 
     def call_method(self, m, args, st, env):
         m = self.pick(m, len(args))
-        self.calls.setdefault(self.cur, set()).add(m)
+        if m in self.sc["methods"]:
+            self.calls.setdefault(self.cur, set()).add(m)
         pk, rk = self.sig(m)
         b, ts = [], []
         for a, kd in zip(args, pk):
@@ -511,12 +513,12 @@ class Tr:
             ts.append(t)
         ns = self.fresh("s")
         if rk == "unit":
-            b.append("do %s <- %s %s %s;" % (ns, self.gname(m), st[0], " ".join(ts)))
+            b.append("do %s <- %s %s %s;" % (ns, self.callee(m), st[0], " ".join(ts)))
             st[0] = ns
             return b, "tt", "unit"
         r = self.fresh("r")
         x = self.fresh("x")
-        b.append("do %s <- %s %s %s;" % (x, self.gname(m), st[0], " ".join(ts)))
+        b.append("do %s <- %s %s %s;" % (x, self.callee(m), st[0], " ".join(ts)))
         b.append("let '(%s, %s) := %s in" % (ns, r, x))
         st[0] = ns
         return b, r, rk
@@ -1009,9 +1011,10 @@ class Tr:
         return ["let %s := S %s in" % (x, old)]
 
     # ---- whole class
-    def method(self, m):
+    def method(self, m, as_lambda=False):
         ps, rt, body = self.methods[m][0]
-        self.cur = m
+        if not as_lambda:
+            self.cur = m
         pk, rk = self.sig(m)
         env, params = {}, []
         for names, kd in self.params(m):
@@ -1036,7 +1039,24 @@ class Tr:
         text = self.S(body["a"], ["s"], env, (done, ret, None))
         rty = "res (%s %s)" % (self.sc["state"], self.sc["state_args"]) if rk == "unit" else \
               "res (%s %s * %s)" % (self.sc["state"], self.sc["state_args"], self.COQTY[rk])
+        if as_lambda:
+            return "(fun (s : %s %s) %s =>\n%s)" % (self.sc["state"], self.sc["state_args"], " ".join(params), text)
         return "Definition %s (s : %s %s) %s : %s :=\n%s." % (self.gname(m), self.sc["state"], self.sc["state_args"], " ".join(params), rty, indent(text))
+
+    def callee(self, m):
+        """what a call of the member function m applies: g_m for a method of the schema; for a private helper the
+        schema does not list (a helper a refactoring extracted), its translated body, in place"""
+        if m in self.sc["methods"] or m not in self.methods:
+            return self.gname(m)
+        if m in self.inlining:
+            raise Unsupported("recursive helper %s" % m)
+        self.inlining.append(m)
+        cur = self.cur
+        try:
+            return self.method(m, as_lambda=True)
+        finally:
+            self.cur = cur
+            self.inlining.pop()
 
     def state_prelude(self):
         """the field setters of the state record (a family module whose state is not a plain record overrides this)"""
